@@ -28,7 +28,7 @@ ASSUMPTIONS = ['fill_text layout is not modelled (C07 covers its totality)',
 
 POLICIES = [False, 'macros', 'based-on-source', 'default', 'except-in-equations', True]
 MATH_MODES = ['text', 'with-delimiters', 'verbatim', 'remove']
-PROFILE = {'verb': 0, 'unknown': 0, 'env': 0.7, 'arg_comment': 0.0, 'arg_ws': 0.2, 'math': 1.5, 'comment': 0.7,
+PROFILE = {'unicode_text': 0.05, 'bracket_text': 0.1, 'verb': 0, 'unknown': 0, 'env': 0.7, 'arg_comment': 0.0, 'arg_ws': 0.2, 'math': 1.5, 'comment': 0.7,
            'specials': 1.0, 'par': 0.5}
 _V = []
 
